@@ -364,6 +364,21 @@ func c11Eval(t *fw.T, c *fw.Case) {
 			if carrier != "direct" {
 				continue
 			}
+			// the same faulty document with the other line-end conventions: a fault stays a fault
+			if (c.Index+len(f.kind))%3 == 0 {
+				for _, nl := range []string{"\r\n", "\r"} {
+					dn := run.Single([]byte(strings.ReplaceAll(string(d.Files[d.Root]), "\n", nl)))
+					dn.FixedSeed = true
+					on := t.Exec(dn)
+					t.Count("faults_injected")
+					t.Count("faults_in_other_line_end_styles")
+					if on.Outcome != run.Rejected {
+						c.Docs = []run.Doc{db, dn}
+						t.Violation("fault-accepted:"+f.kind+":"+f.host+":"+map[string]string{"\r\n": "CRLF", "\r": "CR"}[nl], fmt.Sprintf("fault %s (host %s) is rejected with LF line ends but not with %q: %s\n--- faulty document\n%q", f.kind, f.host, nl, describe(on), dn.Files[dn.Root]))
+						break
+					}
+				}
+			}
 			// location: inside a participant
 			var ranges [][2]int
 			ranges = append(ranges, f.spans...)
